@@ -12,14 +12,15 @@ import (
 )
 
 //vp:all model github.com/google/uuid.New = vpmUUIDNew
-//vp:all stub encoding/gob.NewEncoder = vpGobNewEncoder
-//vp:all stub encoding/gob.NewDecoder = vpGobNewDecoder
-//vp:all stub (*encoding/gob.Encoder).Encode = vpGobEncode
-//vp:all stub (*encoding/gob.Decoder).Decode = vpGobDecode
+//vp:all model encoding/gob.NewEncoder = vpGobNewEncoder
+//vp:all model encoding/gob.NewDecoder = vpGobNewDecoder
+//vp:all model (*encoding/gob.Encoder).Encode = vpGobEncode
+//vp:all model (*encoding/gob.Decoder).Decode = vpGobDecode
 
 func vpmUUIDNew() uuid.UUID { return uuid.UUID{} }
 
-// gob contract: Decode restores exactly the value that Encode was given (same exported fields).
+// gob contract: Decode restores the value that Encode was given INTO a zero destination; into a destination
+// that already holds something, fields that were zero at encoding time are left alone (see vpGobDecode).
 var vpGobBox *user
 var vpGobBoxes []user
 var vpGobW io.Writer
@@ -46,7 +47,50 @@ func vpGobDecode(d *gob.Decoder, v interface{}) error {
 	if n, _ := vpGobR.Read(b[:]); n != 1 || b[0] == 0 || int(b[0]) > len(vpGobBoxes) {
 		return errors.New("vp: corrupt encoding")
 	}
-	*p = vpGobBoxes[b[0]-1]
+	// gob as documented: fields that had their zero value when the value was encoded are not transmitted
+	// and the decoder leaves the corresponding fields of the destination as they are; map entries are
+	// added to an existing map
+	src := vpGobBoxes[b[0]-1]
+	if src.Authenticated {
+		p.Authenticated = true
+	}
+	if src.Domain != "" {
+		p.Domain = src.Domain
+	}
+	if src.UserName != "" {
+		p.UserName = src.UserName
+	}
+	if src.DisplayName != "" {
+		p.DisplayName = src.DisplayName
+	}
+	if src.Email != "" {
+		p.Email = src.Email
+	}
+	if !src.AuthTime.IsZero() {
+		p.AuthTime = src.AuthTime
+	}
+	if src.SessionId != "" {
+		p.SessionId = src.SessionId
+	}
+	if !src.Expiry.IsZero() {
+		p.Expiry = src.Expiry
+	}
+	if len(src.Attributes) > 0 {
+		if p.Attributes == nil {
+			p.Attributes = map[string]interface{}{}
+		}
+		for k, v := range src.Attributes {
+			p.Attributes[k] = v
+		}
+	}
+	if len(src.GroupMembership) > 0 {
+		if p.GroupMembership == nil {
+			p.GroupMembership = map[string]bool{}
+		}
+		for k, v := range src.GroupMembership {
+			p.GroupMembership[k] = v
+		}
+	}
 	return nil
 }
 
@@ -109,4 +153,31 @@ func VP_C13_two_marshals() {
 	vpAssert(err == nil, "first-encoding-still-decodes")
 	vpReach("decoded")
 	vpAssert(back.UserName() == a.userName && back.Authenticated() == a.authenticated, "first-encoding-still-describes-the-first-identity")
+}
+
+
+//vp:property C13 C12
+//vp:bounds two sessions' identities are decoded one after the other in one process: first a logged-in one (authenticated, user name and access-token attribute of 2 symbolic bytes), then one that never logged in (everything at its zero value, as EnrichContext stores it for a first visit), each into an identity of its own
+//vp:assume gob: zero-valued fields are not transmitted and leave the destination's fields untouched
+//vp:reach decoded
+func VP_C13_decode_after_decode() {
+	vpGobBox, vpGobBoxes = nil, nil
+	a := NewUser()
+	a.SetAuthenticated(true)
+	a.SetUserName(vpStringN("user", 2))
+	a.SetAttribute("accessToken", vpStringN("token", 2))
+	ba, err := a.Marshal()
+	vpAssert(err == nil, "marshal-a")
+	b := NewUser()
+	b.sessionId = ""
+	bb, err := b.Marshal()
+	vpAssert(err == nil, "marshal-b")
+	backA, backB := NewUser(), NewUser()
+	backB.sessionId = ""
+	vpAssert(backA.Unmarshal(ba) == nil, "logged-in-identity-decodes")
+	vpAssert(backB.Unmarshal(bb) == nil, "anonymous-identity-decodes")
+	vpReach("decoded")
+	vpAssert(backA.Authenticated() && backA.UserName() == a.userName, "logged-in-identity-restored")
+	vpAssert(!backB.Authenticated() && backB.UserName() == "", "a-session-that-never-logged-in-stays-unauthenticated-and-nameless")
+	vpAssert(backB.GetAttribute("accessToken") == nil, "a-session-that-never-logged-in-has-no-access-token")
 }
